@@ -22,7 +22,7 @@ func init() {
 // its twin S' in which the focus node is the same node without Catch, on the same input.
 
 func C05_Jobs() []string {
-	out := []string{"multi-issue/parse", "multi-issue/validate", "ptr-elem/parse", "kinds/parse", "kinds/validate"}
+	out := []string{"multi-issue/parse", "multi-issue/validate", "ptr-elem/parse", "kinds/parse", "kinds/validate", "redirected/parse", "redirected/validate"}
 	for _, j := range shapeJobs() {
 		_, tm, variant, d := split3(j)
 		if tm == "T5" || tm == "T6" || tm == "T7" {
@@ -213,6 +213,37 @@ func c05Extra(kind, mode string) {
 		}
 	case "kinds":
 		c05Kinds(mode, g)
+	case "redirected":
+		// a failed test of a catching node is caught wherever its issue would have been filed
+		// (IssuePath, IssueCode, Message options on the test)
+		mk := func(catch bool) *z.StructSchema {
+			s := z.Int().GT(g, z.IssuePath("elsewhere"), z.IssueCode("custom"), z.Message("M")).LT(1000, z.IssuePath("b"))
+			if catch {
+				s = s.Catch(7)
+			}
+			return z.Struct(z.Schema{"a": s, "b": z.Int().GT(g)})
+		}
+		y := v.Int("y")
+		var d1, d2 struct{ A, B int }
+		v.Assume(x != 0 && y != 0)
+		var e1, e2 z.ZogIssueMap
+		if mode == "validate" {
+			d1.A, d1.B, d2.A, d2.B = x, y, x, y
+			e1, e2 = mk(true).Validate(&d1), mk(false).Validate(&d2)
+		} else {
+			in := map[string]any{"a": x, "b": y}
+			e1, e2 = mk(true).Parse(in, &d1), mk(false).Parse(in, &d2)
+		}
+		own := len(e2["elsewhere"]) + len(e2["b"]) - v.B2I(!(y > g))
+		v.Assert(len(e1["elsewhere"]) == 0 && len(e1["a"]) == 0 && len(e1["b"]) == v.B2I(!(y > g)), "C05:catching-node-reported-an-issue")
+		v.Assert(d1.B == d2.B, "C05:catch-changed-other-values")
+		if own > 0 {
+			v.Cover("caught")
+			v.Assert(d1.A == 7, "C05:failure-did-not-yield-catch-value")
+		} else {
+			v.Cover("not-caught")
+			v.Assert(d1.A == x, "C05:catch-value-used-without-failure")
+		}
 	case "ptr-elem":
 		// catching primitive directly behind Ptr, as slice element and at top level
 		var p1, p2 *int
@@ -345,7 +376,7 @@ func c05Kinds(mode string, g int) {
 }
 
 func C05_Run(job string) {
-	if a, b, _, _ := split3(job); a == "multi-issue" || a == "ptr-elem" || a == "kinds" {
+	if a, b, _, _ := split3(job); a == "multi-issue" || a == "ptr-elem" || a == "kinds" || a == "redirected" {
 		c05Extra(a, b)
 		return
 	}
@@ -475,7 +506,7 @@ func C09_Jobs() []string {
 			out = append(out, j)
 		}
 	}
-	out = append(out, "params-order", "input-key-order", "input-case-variants")
+	out = append(out, "params-order", "input-key-order", "input-case-variants", "options-order/parse", "options-order/validate")
 	return out
 }
 func C09_Covers() []string { return []string{"both-clean", "both-issues"} }
@@ -500,7 +531,71 @@ func buildShape9(job string) *shape {
 
 var c09Lang = zconst.LangMap{"number": {"between": "must be between {{lo}} and {{hi}}", "fallback": "invalid"}, "string": {"fallback": "invalid"}}
 
+// every field of every issue, params included
+func c09Full(m z.ZogIssueMap) string {
+	s := ""
+	for _, k := range []string{"$root", "a", "b", "c", "contact"} {
+		s += k + "="
+		for _, e := range m[k] {
+			s += e.Code + "|" + e.Dtype + "|" + e.Path + "|" + e.Message + "|" + v.Sprint(len(e.Params))
+			for _, pk := range []string{"min", "gt", "lo"} {
+				if pv, ok := e.Params[pk]; ok {
+					s += "," + pk + ":" + v.Sprint(pv)
+				}
+			}
+			s += ";"
+		}
+	}
+	return s + v.Sprint(len(m))
+}
+
+func c09Options(mode string) {
+	// test options (IssuePath, Message, Params) of one field next to siblings that fail by
+	// coercion, by a plain test and by a required check: whatever the visit order, every issue
+	// carries its own test's options and nobody else's
+	x := v.Int("x")
+	var a, b any = "ab", x
+	if mode != "validate" {
+		if v.Choice("b-uncoercible", 2) == 1 {
+			b = "zz"
+		}
+		if v.Choice("a-missing", 2) == 1 {
+			a = nil
+		}
+	}
+	run := func() (string, [3]any) {
+		var d struct {
+			A string
+			B int
+			C int
+		}
+		s := z.Struct(z.Schema{
+			"a": z.String().Min(3, z.IssuePath("contact"), z.Message("name is too short"), z.Params(map[string]any{"lo": 1})).Required(z.Message("name is required")),
+			"b": z.Int().GT(17),
+			"c": z.Int().Required(),
+		})
+		var errs z.ZogIssueMap
+		if mode == "validate" {
+			d.A, d.B = "ab", x
+			errs = s.Validate(&d)
+		} else {
+			errs = s.Parse(map[string]any{"a": a, "b": b}, &d)
+		}
+		return c09Full(errs), [3]any{d.A, d.B, d.C}
+	}
+	e1, d1 := run()
+	e2, d2 := run()
+	v.Cover("both-issues")
+	v.Cover("both-clean")
+	v.Assert(e1 == e2, "C09:issues-depend-on-order")
+	v.Assert(d1[0] == d2[0] && d1[1].(int) == d2[1].(int) && d1[2] == d2[2], "C09:destination-depends-on-order")
+}
+
 func C09_Run(job string) {
+	if a, b, _, _ := split3(job); a == "options-order" {
+		c09Options(b)
+		return
+	}
 	switch job {
 	case "params-order":
 		// messages do not depend on the iteration order of an issue's params (the engine
